@@ -125,6 +125,9 @@ def run(pid, tier, replay=None):
             print('HARNESS ERROR property=%s unit=%s\n%s' % (pid, json.dumps(u, default=str)[:300], tb))
         return 2
 
+    sigfile = os.path.join(env.VERIF, 'replays', '%s_all_failing_signatures.txt' % pid)
+    if os.path.exists(sigfile):
+        os.remove(sigfile)
     known = _findings.load(pid)
     violations = []
     known_hit = {}
